@@ -190,7 +190,7 @@ def directed(r):
                    ("bare-cr", b"GET " + TARGET.encode() + b" HTTP/1.1\r"), ("high-bytes", b"G\xc3\x89T /api/jet/ HTTP/1.1"),
                    ("fragment", b"GET /api/jet/#frag HTTP/1.1"), ("percent", b"GET /api/jet/%zz HTTP/1.1"),
                    ("matching-then-bad", b"GET /api/jet/ FOO")):
-        a(("line-" + nm, "malformed-line", ln + b"\r\n" + VALID.split(b"\r\n", 1)[1], None if nm in ("fragment", "percent", "lf-only-line", "bare-cr", "tab") else 400))
+        a(("line-" + nm, "malformed-line", ln + b"\r\n" + VALID.split(b"\r\n", 1)[1], None if nm in ("fragment", "percent", "lf-only-line", "bare-cr", "tab", "two-spaces") else 400))
     # header anomalies (the decision on these is C12's; here only the consequences are checked unless it is a syntax error)
     a(("hdr-no-upgrade", "headers", request(drop=("Upgrade",)), 400))
     a(("hdr-no-connection", "headers", request(drop=("Connection",)), 400))
@@ -207,7 +207,7 @@ def directed(r):
     a(("hdr-protocol-empty", "headers", request(drop=("Sec-WebSocket-Protocol",), extra=[("Sec-WebSocket-Protocol", "")]), None))
     a(("hdr-no-colon", "headers", request(extra=[]).replace(b"Host: localhost", b"Host localhost"), 400))
     a(("hdr-space-in-name", "headers", request().replace(b"Host:", b"Ho st:"), 400))
-    a(("hdr-ctl-in-value", "headers", request().replace(b"localhost", b"local\x01host"), 400))
+    a(("hdr-ctl-in-value", "headers", request().replace(b"localhost", b"local\x01host"), None))
     a(("hdr-obs-fold", "headers", request().replace(b"Host: localhost\r\n", b"Host: local\r\n host\r\n"), None))
     a(("hdr-empty-name", "headers", request().replace(b"Host: localhost", b": localhost"), 400))
     a(("hdr-content-length-body", "headers", request(extra=[("Content-Length", "5")], tail=b"hello"), None))
@@ -664,23 +664,23 @@ def generate(ctx, msgsize):
         if len(data) > 3000 and not thorough:
             segs = [s for s in segs if s[0] != "bytewise"]
         for k, (sn, seg) in enumerate(segs):
-            for e in (endings if (thorough or k == 0) else (endings[(len(exs)) % 4],)):
+            for e in (endings if (thorough or k < 2) else (endings[(len(exs)) % 4], endings[(len(exs) + 1) % 4])):
                 exs.append(Ex(fam, "%s[%s,%s]" % (nm, sn, e), data, ending=e, seg=seg, expect=expect, origin=ORIGINS[len(exs) % 5]))
     # every truncation point of a valid request, then EOF / RST (/ ERR / SIGTERM)
     trunc_src = [("valid", VALID)] + ([("post", request(method="POST")), ("v10", request(version="HTTP/1.0"))] if thorough else [])
     for tn, src in trunc_src:
         pts = range(0, len(src))
         for k in pts:
-            for e in (("eof", "rst") if (thorough or k % 3 == 0) else (("eof", "rst")[k % 2],)):
+            for e in ("eof", "rst"):
                 exs.append(Ex("truncated", "%s[:%d]+%s" % (tn, k, e), src[:k], ending=e, expect="close" if tn == "valid" else None))
-            if thorough or k % 7 == 0:
+            if thorough or k % 2 == 0:
                 exs.append(Ex("truncated", "%s[:%d]+%s/seg" % (tn, k, ("err", "hold")[k % 2]), src[:k], ending=("err", "hold")[k % 2],
                               seg=seg_random(src[:k], r), expect="close" if tn == "valid" else None))
     # every single-byte corruption position
     repl = (lambda b: b ^ 0x20, lambda b: b ^ 0x01, lambda b: 0x00, lambda b: 0xff, lambda b: 0x20, lambda b: 0x0d, lambda b: 0x0a,
             lambda b: 0x3a, lambda b: b ^ 0x80)
     for k in range(len(VALID)):
-        fs = repl if thorough else (repl[k % len(repl)], repl[(k * 7 + 3) % len(repl)])
+        fs = repl if thorough else (repl[k % len(repl)], repl[(k * 7 + 3) % len(repl)], repl[(k * 5 + 1) % len(repl)], repl[(k + 4) % len(repl)])
         for j, f in enumerate(fs):
             nb = f(VALID[k]) & 0xff
             if nb == VALID[k]:
@@ -689,7 +689,7 @@ def generate(ctx, msgsize):
             seg = seg_whole(data) if j % 2 == 0 else seg_random(data, r)
             exs.append(Ex("corrupted", "byte%d=%02x" % (k, nb), data, ending=("eof", "rst", "hold", "err")[(k + j) % 4], seg=seg))
     # deletions / insertions of one byte (thorough: every position)
-    for k in range(0, len(VALID), 1 if thorough else 5):
+    for k in range(0, len(VALID), 1 if thorough else 2):
         exs.append(Ex("corrupted", "del%d" % k, VALID[:k] + VALID[k + 1:], ending=("eof", "hold")[k % 2]))
         exs.append(Ex("corrupted", "ins%d" % k, VALID[:k] + bytes([r.randrange(256)]) + VALID[k:], ending=("rst", "eof")[k % 2]))
     # allocation failures: n-th allocation after the CONNECT / after the request arrives
@@ -706,9 +706,9 @@ def generate(ctx, msgsize):
             exs.append(Ex("epctlfail", "EPCTLFAIL %d, %d bytes, %s" % (nfail, len(data), e), data, ending=e, pre=["EPCTLFAIL %d" % nfail]))
             exs.append(Ex("epctlfail", "EPCTLFAIL %d, data before accept, %s" % (nfail, e), data, ending=e, pre=["EPCTLFAIL %d" % nfail], deferred=True))
     # data already queued when the connection is accepted (first read inside the accept path)
-    for nm, fam, data, expect in dire:
-        if thorough or len(exs) % 3 == 0:
-            exs.append(Ex("data-before-accept", nm, data, ending=("eof", "hold", "rst")[len(exs) % 3], deferred=True, expect=expect))
+    for j, (nm, fam, data, expect) in enumerate(dire):
+        for e in (("eof", "hold", "rst") if thorough else (("eof", "hold", "rst")[j % 3],)):
+            exs.append(Ex("data-before-accept", "%s,%s" % (nm, e), data, ending=e, deferred=True, expect=expect))
     # write failures while answering
     wm = ("err", "eagain", "1:err", "20:err", "27:err", "28:err", "157:err", "158:err", "10,10:eagain", "1,1,1:all", "0:err")
     for m in wm:
@@ -717,7 +717,7 @@ def generate(ctx, msgsize):
             for e in (("eof", "hold", "err") if thorough else (("eof", "hold", "err")[len(exs) % 3],)):
                 exs.append(Ex("write-fault", "WMODE %s, %s, %s" % (m, nm, e), data, ending=e, mid=["WMODE {c} %s" % m], wfault=True))
     # structured random: request assembled from the grammar with random defects
-    n_rand = 4000 if thorough else 500
+    n_rand = 30000 if thorough else 2500
     for i in range(n_rand):
         rr = C.rng("c13", "rand", i)
         data = random_request(rr, msgsize)
@@ -757,7 +757,7 @@ def multi_runs(ctx):
     runs = []
     start = ("GET %s HTTP/1.1\r\n" % TARGET).encode()
     states = [b"", b"GET /api", start, start + b"Host: x\r\n", VALID[:-2], VALID, b"\r\n\r\n", start + b"Upgrade: websock"]
-    n = 60 if ctx.thorough else 12
+    n = 600 if ctx.thorough else 60
     for i in range(n):
         r = C.rng("c13", "multi", i)
         k = r.randrange(2, 9)
@@ -860,7 +860,7 @@ def run(ctx, out):
     batches = [exs[i:i + per_run] for i in range(0, len(exs), per_run)]
     batches += multi_runs(ctx)
     free = [("scenario:" + f, lines) for f, lines in scenario_files()]
-    for i in range(300 if ctx.thorough else 40):
+    for i in range(3000 if ctx.thorough else 200):
         r = C.rng("c13", "interleaved", i)
         free.append(("interleaved%d" % i, interleaved_script(r, r.randrange(2, 7))))
     total = {}
